@@ -234,6 +234,9 @@ def run(ctx, col: Collector):
                 pc = pats[0]
                 if not (isinstance(pc, ast.Constant) and isinstance(pc.value, str)) or reader_word[0] is None:
                     col.unk('C02-ident', cons, f'{hf.qualname} returns `{p0}` unquoted under `{norm(pc)[:40]}`; the pattern or the reader\'s bare token is not readable', node=last.node, file=hf.file)
+                elif full and bare_pattern_chars(pc.value)[0] and bare_pattern_chars(pc.value)[2]:
+                    col.bad('C02-ident', cons, f'{hf.qualname} writes a name bare whenever it matches `{pc.value}`; {bare_pattern_chars(pc.value)[2]}, which the reader\'s bare '
+                            f'identifier token does not accept: such a name is written without quotes and the rendered document cannot be parsed back', node=last.node, file=hf.file)
                 elif bare_word_pattern(pc.value, *reader_word) and full:
                     col.ok('C02-ident', cons, f'{hf.qualname} writes a name bare only when it fully matches `{pc.value}`, all of which the reader takes as a bare identifier', node=last.node, file=hf.file)
                 elif bare_word_pattern(pc.value) and full:
@@ -582,29 +585,46 @@ def leading_keyword(x: G, owner: G) -> Optional[str]:
     return None
 
 
-def bare_word_pattern(pat: str, first: Optional[frozenset] = None, rest: Optional[frozenset] = None) -> bool:
-    """The pattern matches only non-empty strings the reader's bare identifier token accepts: a repeated character class whose characters are all
-    allowed in first position and in later positions (default: [A-Za-z0-9_])."""
+def bare_pattern_chars(pat: str):
+    """For a pattern of the form `<character class>+` (or {n,}): (True, explicit characters, description of anything beyond them such as `\\w` matching non-ASCII
+    letters); (False, ..) when the pattern has another shape."""
     import re._parser as sp
     import re._constants as sc
     try:
         tree = list(sp.parse(pat))
     except Exception:
-        return False
+        return False, set(), None
     if len(tree) != 1 or tree[0][0] not in (sc.MAX_REPEAT, sc.MIN_REPEAT):
-        return False
+        return False, set(), None
     lo, hi, body = tree[0][1]
-    if lo < 1 or len(body) != 1 or body[0][0] is not sc.IN:
-        return False
-    allowed = set(map(ord, 'ABCDEFGHIJKLMNOPQRSTUVWXYZabcdefghijklmnopqrstuvwxyz0123456789_'))
-    if first is not None and rest is not None:
-        allowed = set(map(ord, first & rest))
+    if lo < 1 or len(body) != 1:
+        return False, set(), None
+    items = body[0][1] if body[0][0] is sc.IN else [body[0]]
     chars = set()
-    for op, av in body[0][1]:
+    extra = None
+    for op, av in items:
         if op is sc.LITERAL:
             chars.add(av)
         elif op is sc.RANGE:
             chars |= set(range(av[0], av[1] + 1))
+        elif op is sc.CATEGORY and av is sc.CATEGORY_WORD:
+            chars |= set(map(ord, 'ABCDEFGHIJKLMNOPQRSTUVWXYZabcdefghijklmnopqrstuvwxyz0123456789_'))
+            extra = '`\\w` also matches letters and digits outside ASCII (é, ß, я, ٣ ...)'
+        elif op is sc.CATEGORY and av is sc.CATEGORY_DIGIT:
+            chars |= set(map(ord, '0123456789'))
+            extra = extra or '`\\d` also matches digits outside ASCII'
         else:
-            return False
+            return False, set(), None
+    return True, chars, extra
+
+
+def bare_word_pattern(pat: str, first: Optional[frozenset] = None, rest: Optional[frozenset] = None) -> bool:
+    """The pattern matches only non-empty strings the reader's bare identifier token accepts: a repeated character class whose characters are all
+    allowed in first position and in later positions (default: [A-Za-z0-9_])."""
+    shape, chars, extra = bare_pattern_chars(pat)
+    if not shape or extra:
+        return False
+    allowed = set(map(ord, 'ABCDEFGHIJKLMNOPQRSTUVWXYZabcdefghijklmnopqrstuvwxyz0123456789_'))
+    if first is not None and rest is not None:
+        allowed = set(map(ord, first & rest))
     return chars <= allowed
